@@ -273,13 +273,22 @@ def check_double_crash(ctx: Ctx):
     ctx.ok("R17.5", ev, ev.node, f"{ev.qual}:double-crash", f"{n} distinct file states after two successive crashes all recover to exactly one row per subject", {"states": n})
 
 
+def _run_rule(ctx, name, fn):
+    """a sub-rule that cannot be evaluated is recorded as undecided; the remaining rules still run"""
+    try:
+        return fn(ctx)
+    except (Undecided, AnchorMissing) as e:
+        ctx.undecided(name, None, None, f"{name}:analysis", f"{type(e).__name__}: {e}")
+        return 0
+
+
 def check(ctx: Ctx):
-    check_constructor_states(ctx)
-    check_crash_points(ctx)
-    check_neighbours(ctx)
+    _run_rule(ctx, "check_constructor_states", check_constructor_states)
+    _run_rule(ctx, "check_crash_points", check_crash_points)
+    _run_rule(ctx, "check_neighbours", check_neighbours)
     if ctx.tier == "thorough":
         check_double_crash(ctx)
-    check_no_hand_parsing(ctx)
+    _run_rule(ctx, "check_no_hand_parsing", check_no_hand_parsing)
     # the header an aggregator writes / compares is determined by its own evaluator alone (R15.7)
     from . import c03, c15
 
